@@ -22,6 +22,7 @@ func c05Alphabet() []fsx.Op {
 		{K: "READ", H: "root/d/a", Off: 300 * 4096, Cnt: 8192}, // across a hole: materialises it
 		{K: "SETATTR", H: "root/a", Size: 100}, {K: "SETATTR", H: "root/a", Size: 20 * 4096}, {K: "SETATTR", H: "root/d/a", Size: 0},
 		{K: "RENAME", H: "root/d", N: "a", H2: "root", N2: "a"}, // file over file
+		{K: "RENAME", H: "root", N: "a", H2: "root/d", N2: "a"}, // ... and the other way: the replaced file may be the 600-block one, freed in the background
 		{K: "RENAME", H: "root", N: "d", H2: "root", N2: "d2"},
 		{K: "MKDIR", H: "root", N: "d2"},
 		{K: "RENAME", H: "root", N: "d", H2: "root", N2: "d2", As: "x"},       // directory over empty directory (if d2 is empty)
@@ -31,6 +32,7 @@ func c05Alphabet() []fsx.Op {
 		{K: "RENAME", H: "root", N: "a", H2: "root", N2: nameOfLen(200, 'z')}, // refused after lookup
 		{K: "REMOVE", H: "root", N: "a"}, {K: "REMOVE", H: "root/d", N: "a"}, {K: "REMOVE", H: "root/d/e", N: "x"}, {K: "RMDIR", H: "root/d", N: "e"}, {K: "RMDIR", H: "root", N: "d"}, {K: "REMOVE", H: "root", N: "s"},
 		{K: "RESTART"},
+		{K: "SHRINKCRASH"}, // the server's Crash(): background freeing stops half-way, restart
 		{K: "DELETEALL"},
 	}
 }
@@ -45,12 +47,26 @@ func c05After(w *World, path []fsx.Op, r fsx.Reply, implFail bool, mis *reffs.Mi
 		viol("shrinker-not-idle", "shrinker threads still registered at quiescence")
 	}
 	fr := w.Fsck()
-	for _, e := range fr.Reclaim() {
-		viol("reclaim|"+ruleOf(e), e)
+	crashed := false
+	for _, o := range path {
+		if o.K == "SHRINKCRASH" {
+			crashed = true
+		}
 	}
-	for _, e := range w.Audit(fr) {
-		if rl := ruleOf(e); rl == "balloc-differs-from-disk" || rl == "ialloc-differs-from-disk" {
-			viol("reclaim|"+rl, e)
+	if crashed {
+		// a crash in the middle of freeing: a half-freed object may hold blocks until its number is reused or
+		// touched - so touch every survivor and hand out the half-freed numbers again first (as after a crash image)
+		for _, e := range reclaimAfterRecovery(w, fr) {
+			viol("after-crash|"+ruleOf(e), e)
+		}
+	} else {
+		for _, e := range fr.Reclaim() {
+			viol("reclaim|"+ruleOf(e), e)
+		}
+		for _, e := range w.Audit(fr) {
+			if rl := ruleOf(e); rl == "balloc-differs-from-disk" || rl == "ialloc-differs-from-disk" {
+				viol("reclaim|"+rl, e)
+			}
 		}
 	}
 	if path[len(path)-1].K == "DELETEALL" {
@@ -92,11 +108,29 @@ func c05InodeAlphabet() []fsx.Op {
 	return []fsx.Op{
 		{K: "REMOVE", H: "root/bulk", N: "f16000"}, {K: "CREATE", H: "root", N: "n1"}, {K: "MKDIR", H: "root/d", N: "n2"},
 		{K: "RENAME", H: "root/bulk", N: "f00000", H2: "root/bulk", N2: "f00001"}, {K: "RENAME", H: "root", N: "a", H2: "root/bulk", N2: "f32700"},
-		{K: "REMOVETHIRD", H: "root/bulk"}, {K: "RESTART"}, {K: "DELETEALL"},
+		{K: "REMOVETHIRD", H: "root/bulk"}, {K: "RESTART"}, {K: "SHRINKCRASH"}, {K: "DELETEALL"},
+	}
+}
+
+// from a state that already has a file whose freeing takes background transactions (700 blocks long, sparse) and
+// a small one: every way of dropping the big one, interrupted or not, followed by reuse
+var c05BigSetup = []fsx.Op{{K: "MKDIR", H: "root", N: "d"}, {K: "CREATE", H: "root/d", N: "a"}, {K: "WRITE", H: "root/d/a", Off: 700 * 4096, Cnt: 1, Pat: 0x63, Stable: 2},
+	{K: "WRITE", H: "root/d/a", Off: 0, Cnt: 3 * 4096, Pat: 0x64, Stable: 2}, {K: "CREATE", H: "root", N: "a"}, {K: "WRITE", H: "root/a", Off: 0, Cnt: 5000, Pat: 0x65, Stable: 2}}
+
+func c05BigAlphabet() []fsx.Op {
+	return []fsx.Op{
+		{K: "RENAME", H: "root", N: "a", H2: "root/d", N2: "a"}, // the replaced file is the big one
+		{K: "RENAME", H: "root/d", N: "a", H2: "root", N2: "a"},
+		{K: "REMOVE", H: "root/d", N: "a"}, {K: "SETATTR", H: "root/d/a", Size: 0}, {K: "SETATTR", H: "root/d/a", Size: 4096 + 100}, {K: "SETATTR", H: "root/d/a", Size: 800 * 4096},
+		{K: "WRITE", H: "root/d/a", Off: 4000, Cnt: 5000, Pat: 0x66, Stable: 2}, {K: "READ", H: "root/d/a", Off: 0, Cnt: 3 * 4096},
+		{K: "CREATE", H: "root", N: "n"}, {K: "MKDIR", H: "root", N: "m"}, {K: "REMOVE", H: "root", N: "a"},
+		{K: "RESTART"}, {K: "SHRINKCRASH"}, {K: "DELETEALL"},
 	}
 }
 
 func init() {
+	RegisterSeq("c05.big", &SeqSpec{Prop: "C05", DiskSize: 2200, Setup: c05BigSetup, Alphabet: c05BigAlphabet(), After: c05After,
+		Key: func(w *World) string { w.Probe = crashProbe; return w.defaultKey() }})
 	RegisterSeq("c05.inodes", &SeqSpec{Prop: "C05", Prep: "inofull", Alphabet: c05InodeAlphabet(), After: c05After, AllowImplFail: true})
 	RegisterSeq("c05.tiny", &SeqSpec{Prop: "C05", DiskSize: 1539 + 1 + 10, Alphabet: c05TinyAlphabet(), After: c05After, AllowImplFail: true})
 	Checks["C05"] = C05
@@ -110,11 +144,12 @@ func C05(r *report.Report, tier string) {
 		depth, bound, maxImg = 4, 2, 0
 	}
 	r.Only = map[string]bool{"C05": true}
-	r.Rule = fmt.Sprintf("(i) breadth-first search to depth %d over a %d-symbol build/delete alphabet (files of every size class, sparse file freed in the background, hole filled by a read, shrink/grow, renames over existing targets, refused operations, restart, delete-everything) on a 2200-block disk, and a second search on a disk with 10 free data blocks (allocations that fail half-way, short writes, holes filled without space), and a third (depth one less) from the state with the inode table exhausted - 32765 files in one directory of 1024 blocks, freed in the background when everything is deleted: after every transition the shrinkers run to completion under the scheduler and the audit demands blocks/inodes marked in use == reachable from the root, in-memory allocators == on-disk bitmaps, and after delete-everything the free counts of the fresh file system; (ii) every crash image (cap %d per history in quick) of histories that remove / truncate a 530-block file freed by several background transactions: after recovery every survivor is touched, files are created until every half-freed inode number has been handed out again, then the same audit; (iii) schedules (<=%d deviations) of the concurrent free harnesses with the audit at the end", depth, len(c05Alphabet()), maxImg, bound)
+	r.Rule = fmt.Sprintf("(i) breadth-first search to depth %d over a %d-symbol build/delete alphabet (files of every size class, sparse file freed in the background, hole filled by a read, shrink/grow, renames over existing targets, refused operations, restart, delete-everything) on a 2200-block disk, and a second search on a disk with 10 free data blocks (allocations that fail half-way, short writes, holes filled without space), and a third (depth one less) from the state with the inode table exhausted - 32765 files in one directory of 1024 blocks, freed in the background when everything is deleted, and a fourth from a state with a 700-block sparse file (every way of dropping it - removal, truncation, being the target of a rename - interrupted by the server's own Crash() or not, followed by reuse; after a Crash() the survivors are touched and the half-freed inode numbers handed out again before the audit): after every transition the shrinkers run to completion under the scheduler and the audit demands blocks/inodes marked in use == reachable from the root, in-memory allocators == on-disk bitmaps, and after delete-everything the free counts of the fresh file system; (ii) every crash image (cap %d per history in quick) of histories that remove / truncate a 530-block file freed by several background transactions: after recovery every survivor is touched, files are created until every half-freed inode number has been handed out again, then the same audit; (iii) schedules (<=%d deviations) of the concurrent free harnesses with the audit at the end", depth, len(c05Alphabet()), maxImg, bound)
 	s1 := RunSeq(r, "c05.seq", depth)
 	s2 := RunSeq(r, "c05.tiny", depth+1)
 	s3 := RunSeq(r, "c05.inodes", depth-1)
-	r.Extra["searches"] = []*SeqSummary{s1, s2, s3}
+	s4 := RunSeq(r, "c05.big", depth)
+	r.Extra["searches"] = []*SeqSummary{s1, s2, s3, s4}
 	var jobs []crashArg
 	for _, h := range [][]fsx.Op{
 		{{K: "REMOVE", H: "root", N: "big"}},
